@@ -881,6 +881,44 @@ func readTombstones(filename string) (Tombstones, error) {
 	return t, nil
 }
 
+// withoutRevokedAnchors drops from keys every DNSKEY whose revocation is on
+// record under dir: in the tombstone store, or still as a Revoked/Removed
+// marker in the state file (where it waits when the tombstone write failed).
+// A tombstone store that is there and cannot be read yields no anchors at
+// all, as in AutoTA: the record of what was revoked is out of reach.
+func withoutRevokedAnchors(keys []dns.RR, dir string) []dns.RR {
+	tombstones, err := readTombstones(filepath.Join(dir, tombstoneFile))
+	if err != nil {
+		zlog.Error("Trust anchor tombstones file unreadable — starting without trust anchors", "error", err.Error())
+		return nil
+	}
+	revoked := make(map[string]struct{}, len(tombstones))
+	for fp := range tombstones {
+		revoked[fp] = struct{}{}
+	}
+	if state, err := readFromTAFile(filepath.Join(dir, stateFile)); err == nil {
+		for _, ta := range state {
+			if ta != nil && ta.DNSKey != nil && (ta.State == StateRevoked || ta.State == StateRemoved) {
+				revoked[dnskeyMaterialFP(ta.DNSKey)] = struct{}{}
+			}
+		}
+	}
+	if len(revoked) == 0 {
+		return keys
+	}
+	kept := make([]dns.RR, 0, len(keys))
+	for _, rr := range keys {
+		if k, ok := rr.(*dns.DNSKEY); ok {
+			if _, dead := revoked[dnskeyMaterialFP(k)]; dead {
+				zlog.Warn("Configured trust anchor was revoked earlier — not loading it", "keytag", k.KeyTag())
+				continue
+			}
+		}
+		kept = append(kept, rr)
+	}
+	return kept
+}
+
 func writeTombstones(filename string, t Tombstones) error {
 	return atomicGobWrite(filename, &t)
 }
